@@ -349,3 +349,129 @@ def mutate(src, rng, kind=None):
         return src[:a] + src[toks[k][1]:], kind
     p = rng.below(len(src)) if src else 0
     return src[:p] + src[p + 1:], "del-byte"
+
+
+# ----------------------------------------------------------------------------- C06: terms of the sugar calculus
+
+class TermGen:
+    """typed random terms of Model/C06.v over the prelude (see harness/cmd/c06 and Model/C06.v):
+    -> (prefix encoding for the model, XGo expression text)"""
+    INT, BOOL, STR = "int", "bool", "string"
+
+    def __init__(self, rng):
+        self.r = rng
+        self.n = 9
+        self.shape = {}
+        self.use_loop_var = True
+
+    def fresh(self):
+        self.n += 1
+        return self.n
+
+    def lst(self, t):
+        return "[]" + t
+
+    def gen(self, t, d, bound):
+        """bound: list of (number, type)"""
+        r = self.r
+        leaf = d >= 4 or r.below(5) == 0
+        bv = [n for (n, bt) in bound if bt == t]
+        if bv and r.below(3) == 0:
+            n = bv[r.below(len(bv))]
+            return "v%d" % n, "x%d" % n
+        if t == self.INT:
+            k = r.below(2) if leaf else r.below(9)
+            if k == 0:
+                return "v2", "n"
+            if k == 1:
+                v = r.below(20)
+                return "i%d" % v, str(v)
+            if k == 2:
+                a, b = self.gen(t, d + 1, bound), self.gen(t, d + 1, bound)
+                return "+ %s %s" % (a[0], b[0]), "(%s + %s)" % (a[1], b[1])
+            if k == 3:
+                a = self.gen(t, d + 1, bound)
+                return "call 0 " + a[0], "inc(%s)" % a[1]
+            if k == 4:
+                a = self.gen(self.STR, d + 1, bound)
+                return "call 7 " + a[0], "size(%s)" % a[1]
+            if k in (5, 6):
+                f, at, fn = (3, self.INT, "half") if r.below(2) else (4, self.STR, "parse")
+                a, dd = self.gen(at, d + 1, bound), self.gen(t, d + 1, bound)
+                self.shape["errwrap-default"] = self.shape.get("errwrap-default", 0) + 1
+                return "errd %d %s %s" % (f, a[0], dd[0]), "%s(%s)?:%s" % (fn, a[1], dd[1])
+            f, at, fn = (3, self.INT, "half") if r.below(2) else (4, self.STR, "parse")
+            a = self.gen(at, d + 1, bound)
+            self.shape["errwrap-panic"] = self.shape.get("errwrap-panic", 0) + 1
+            return "errp %d %s" % (f, a[0]), "%s(%s)!" % (fn, a[1])
+        if t == self.BOOL:
+            k = r.below(2) if leaf else r.below(4)
+            if k == 0:
+                return "v6", "b"
+            if k == 1:
+                return ("bT", "true") if r.below(2) else ("bF", "false")
+            if k == 2:
+                a, b = self.gen(self.INT, d + 1, bound), self.gen(self.INT, d + 1, bound)
+                return "< %s %s" % (a[0], b[0]), "(%s < %s)" % (a[1], b[1])
+            a = self.gen(self.INT, d + 1, bound)
+            return "call 1 " + a[0], "isPos(%s)" % a[1]
+        if t == self.STR:
+            k = r.below(2) if leaf else r.below(4)
+            if k == 0:
+                return "v3", "s"
+            if k == 1:
+                w = ["a", "bc", "12", "x1"][r.below(4)]
+                return "s" + w.encode().hex(), '"%s"' % w
+            if k == 2:
+                a, b = self.gen(t, d + 1, bound), self.gen(t, d + 1, bound)
+                return "cat %s %s" % (a[0], b[0]), "(%s + %s)" % (a[1], b[1])
+            a = self.gen(self.INT, d + 1, bound)
+            return "call 2 " + a[0], "str(%s)" % a[1]
+        # list types
+        et = t[2:]
+        if t == "[]int" and (leaf or r.below(4) == 0):
+            if r.below(2):
+                return "v4", "xs"
+            a = self.gen(t, d + 1, bound) if not leaf else ("v4", "xs")
+            return "call 5 " + a[0], "dbl(%s)" % a[1]
+        if t == "[]string" and (leaf or r.below(4) == 0):
+            if r.below(2):
+                return "v5", "ss"
+            a = self.gen(self.STR, d + 1, bound)
+            return "call 6 " + a[0], "words(%s)" % a[1]
+        if t == "[][]int" and (leaf or r.below(4) == 0):
+            return "v7", "xss"
+        if leaf and t not in ("[]int", "[]string", "[][]int"):
+            pass
+        # comprehension producing []et from a source list of some element type
+        st = ["int", "string"][r.below(2)]
+        if et == "[]int" and r.below(3) == 0:
+            st = "[]int"
+        src = self.gen("[]" + st, d + 1, bound)
+        x = self.fresh()
+        b2 = bound + [(x, st)]
+        e = self.gen(et, d + 1, b2)
+        xn = "x%d" % x
+        used = xn in e[1].replace("(", " ").replace(")", " ").replace(",", " ").split()
+        c = None
+        if r.below(2):
+            c = self.gen(self.BOOL, d + 1, b2)
+            used = used or xn in c[1].replace("(", " ").replace(")", " ").replace(",", " ").split()
+        if not used and self.use_loop_var:
+            # an unused comprehension variable is rejected by Go ("declared and not used", known finding):
+            # make the filter use it
+            if st == "int":
+                c = ("< v%d i1000" % x, "(%s < 1000)" % xn)
+            elif st == "string":
+                c = ("< call 7 v%d i1000" % x, "(size(%s) < 1000)" % xn)
+            else:
+                e = ("call 5 v%d" % x, "dbl(%s)" % xn) if r.below(2) else ("v%d" % x, xn)
+        if c is not None:
+            self.shape["comprehension-if"] = self.shape.get("comprehension-if", 0) + 1
+            return "comprif %d %s %s %s" % (x, e[0], src[0], c[0]), "[%s for x%d <- %s, %s]" % (e[1], x, src[1], c[1])
+        self.shape["comprehension"] = self.shape.get("comprehension", 0) + 1
+        return "compr %d %s %s" % (x, e[0], src[0]), "[%s for x%d <- %s]" % (e[1], x, src[1])
+
+    def term(self):
+        t = ["int", "[]int", "[]int", "[]string", "[][]int", "string", "bool", "[][]string"][self.r.below(8)]
+        return t, self.gen(t, 0, [])
